@@ -1,5 +1,6 @@
 import SwiftMT.JsonShape
 import SwiftMT.Props.C11
+import SwiftMT.Lemmas.Prim
 /-
 C08 — JSON conversion is lossless and agrees with the MT serialisation.
 
@@ -94,6 +95,41 @@ theorem time_json_roundtrip (h m : Nat) (hh : h ≤ 23) (hm : m ≤ 59) :
 theorem date13d_json_roundtrip (t : Text) (x : YMD) (h : parseDateYYMMDD t = some x) :
     json13dDecode (printYYMMDD x) = some x := C11.json13d_roundtrip t x h
 
+/-- `normalize_address_12` (BasicHeader.logical_terminal, InputApplicationHeader.destination_address in the JSON codecs):
+cut to 12 characters / padded with `X` to 12. -/
+def norm12 (t : Text) : Text :=
+  if blen t > 12 then t.take 12 else if blen t < 12 then t ++ List.replicate (12 - t.length) 'X' else t
+
+/-- a 12-character ASCII address (what `parse` produces from a 25-character block 1 / a block 2) is written and read back unchanged -/
+theorem norm12_id_on_parsed (t : Text) (ha : isAsciiT t = true) (hl : t.length = 12) : norm12 t = t := by
+  unfold norm12
+  rw [blen_ascii t ha, hl]; simp
+
+/-- the codec is a normalisation: applying it twice (serialise, then deserialise) changes nothing further (ASCII) -/
+theorem norm12_idempotent (t : Text) (ha : isAsciiT t = true) : norm12 (norm12 t) = norm12 t := by
+  have hlen : (norm12 t).length = 12 ∨ norm12 t = t := by
+    unfold norm12
+    rw [blen_ascii t ha]
+    by_cases h1 : t.length > 12
+    · left; simp [h1, List.length_take]; omega
+    · by_cases h2 : t.length < 12
+      · left; simp [h1, h2]; omega
+      · right; simp [h1, h2]
+  have hasc : isAsciiT (norm12 t) = true := by
+    unfold norm12 isAsciiT at *
+    rw [List.all_eq_true] at ha
+    split
+    · rw [List.all_eq_true]; intro c hc; exact ha c (List.mem_of_mem_take hc)
+    · split
+      · rw [List.all_eq_true]; intro c hc
+        rcases List.mem_append.mp hc with h | h
+        · exact ha c h
+        · rw [List.mem_replicate] at h; rw [h.2]; decide
+      · rw [List.all_eq_true]; exact ha
+  rcases hlen with h | h
+  · exact norm12_id_on_parsed _ hasc h
+  · rw [h]; exact h
+
 /-! ### (4) clean_null_fields -/
 
 /-- a null member is removed, whatever follows -/
@@ -112,5 +148,18 @@ theorem clean_keeps_leaf (k : String) (t : Text) (rest : List (String × J)) :
 
 /-- required `Vec` members without a serde default: an empty one does not survive publish (listed in known_findings) -/
 def vecsWithoutDefault : List String := structs.flatMap vecsNoDefault
+
+/-- The required `Vec` members that have no `#[serde(default)]`: the sequences and line lists that the parsers never leave
+empty (at least one transaction / rate change / statement line / text line).  A new such member, or one whose parser
+allows zero occurrences, must be added here deliberately (MT942.statement_lines was one: repaired). -/
+theorem vecs_without_default_eq : vecsWithoutDefault =
+    ["MT101.transactions", "MT104.transactions", "MT107.transactions", "MT920.sequence", "MT935.rate_changes",
+     "MT935RateChange.field_37h", "MT940.statement_lines", "Field50NoOption.name_and_address",
+     "Field50A.name_and_address", "Field50K.name_and_address", "Field50H.name_and_address", "Field52D.name_and_address",
+     "Field53D.name_and_address", "Field54D.name_and_address", "Field55D.name_and_address", "Field56D.name_and_address",
+     "Field57D.name_and_address", "Field58D.name_and_address", "Field59F.name_and_address",
+     "Field59NoOption.name_and_address", "Field70.narrative", "Field71B.details", "Field72.information",
+     "Field75.information", "Field76.information", "Field77A.narrative", "Field77B.narrative", "Field79.information",
+     "Field86.narrative"] := by decide +kernel
 
 end SwiftMT.Props.C08
